@@ -245,6 +245,17 @@ theorem off_samples_discarded (ts : List Rat) (hs : ts.Pairwise (· ≤ ·)) (d 
   obtain ⟨pr, hpr, rfl⟩ := List.mem_map.mp hg
   exact ⟨pr, hpr, (sample_range ts hs d _ _ k).mp hv⟩
 
+def exOn : Row := { time := 1000, seq := 1, x := 0, y := 0, on := true, spot := "1" }
+def exOff : Row := { time := 3000, seq := 1, x := 20000, y := 0, on := false, spot := "1" }
+
+/-- laser on from 1 s to 3 s over two pixels of 1 µm, samples at 10, 11, 12, 13 s, delay 1/2 s:
+samples 1 and 2 are placed, samples 0 and 3 (laser off) are not -/
+example : (allWrites 4 ([(exOn, exOff)].map
+      (mkSeg (shiftTimes [10, 11, 12, 13] (1 / 2)) { exOn with time := 0 } 0 0 1 1))).map
+    (fun w => [lookupLast w (0, 0), lookupLast w (0, 1), lookupLast w (0, 2)])
+    = some [some 1, some 2, none] := by
+  decide +kernel
+
 /-! ## selection of a pattern -/
 
 /-- a logged pattern: a header row carrying the sequence number, then rows with a blank one -/
@@ -346,6 +357,83 @@ theorem origin_spec (xs : List Int) (hne : xs ≠ []) :
   ⟨minList_mem xs hne, fun x hx => minList_le xs x hx⟩
 
 example : minList [85677972, 96097972, 85677972, 96097972] = 85677972 := by decide
+
+/-! ## the top-level function -/
+
+/-- The top-level function reports the parameters of the log: the spot size parsed from the first
+imported `On` row and, as origin, the per-axis minimum of the imported `On`/`Off` coordinates. -/
+theorem params_spec (rows : List Row) (sel : Option (List Int)) (ts : List Rat) (delay : Rat)
+    (isnan : Nat → Bool) (squeeze : Bool) (r : Result)
+    (h : sync rows sel ts delay isnan squeeze = .ok r) :
+    ∃ prs first, pairs (selectRows sel rows) = some prs ∧ prs.head? = some first ∧
+      spotSize first.1.spot = some r.spot ∧
+      r.origin = (minList (prs.flatMap (fun p => [p.1.x, p.2.x])), minList (prs.flatMap (fun p => [p.1.y, p.2.y]))) := by
+  unfold sync at h
+  simp only [pure, Except.pure] at h
+  split at h
+  · rename_i prs hprs
+    split at h
+    · rename_i first hfirst
+      split at h
+      · rename_i spot hspot
+        split at h
+        · rename_i writes hw
+          refine ⟨prs, first, hprs, hfirst, ?_⟩
+          split at h
+          · simp at h
+            subst h
+            exact ⟨hspot, rfl⟩
+          · simp at h
+            subst h
+            exact ⟨hspot, rfl⟩
+        · simp [throw, throwThe, MonadExceptOf.throw] at h
+      · simp [throw, throwThe, MonadExceptOf.throw] at h
+    · simp [throw, throwThe, MonadExceptOf.throw] at h
+  · simp [throw, throwThe, MonadExceptOf.throw] at h
+
+/-- the top-level function: every sample index found in the returned image was recorded while the
+laser was on during one of the imported lines -/
+theorem sync_samples_were_on (rows : List Row) (sel : Option (List Int)) (ts : List Rat) (delay : Rat)
+    (isnan : Nat → Bool) (squeeze : Bool) (r : Result) (hs : ts.Pairwise (· ≤ ·))
+    (h : sync rows sel ts delay isnan squeeze = .ok r) :
+    ∃ prs first, pairs (selectRows sel rows) = some prs ∧ prs.head? = some first ∧
+      ∀ row ∈ r.pixels, ∀ k : Nat, some k ∈ row →
+        ∃ pr ∈ prs, ∃ t, ts[k]? = some t ∧
+          laserTime first.1 pr.1 - delay ≤ t - minRat ts ∧ t - minRat ts < laserTime first.1 pr.2 - delay := by
+  unfold sync at h
+  simp only [pure, Except.pure] at h
+  split at h
+  · rename_i prs hprs
+    split at h
+    · rename_i first hfirst
+      split at h
+      · rename_i spot hspot
+        split at h
+        · rename_i writes hw
+          refine ⟨prs, first, hprs, hfirst, ?_⟩
+          have key : ∀ (h' w' : Nat) (row : List (Option Nat)),
+              row ∈ (List.range h').map (fun (r : Nat) => (List.range w').map (fun (c : Nat) =>
+                lookupLast writes ((r : Int), (c : Int)))) → ∀ k : Nat, some k ∈ row →
+              ∃ pr ∈ prs, ∃ t, ts[k]? = some t ∧
+                laserTime first.1 pr.1 - delay ≤ t - minRat ts ∧ t - minRat ts < laserTime first.1 pr.2 - delay := by
+            intro h' w' row hrow k hk
+            obtain ⟨rr, _, rfl⟩ := List.mem_map.mp hrow
+            obtain ⟨cc, _, hcc⟩ := List.mem_map.mp hk
+            exact off_samples_discarded ts hs delay first.1 _ _ _ _ prs writes hw _ k hcc
+          split at h
+          · simp at h
+            subst h
+            intro row hrow k hk
+            obtain ⟨row', hrow', hk'⟩ := squeezeImg_mem _ _ _ row hrow k hk
+            exact key _ _ row' hrow' k hk'
+          · simp at h
+            subst h
+            intro row hrow k hk
+            exact key _ _ row hrow k hk
+        · simp [throw, throwThe, MonadExceptOf.throw] at h
+      · simp [throw, throwThe, MonadExceptOf.throw] at h
+    · simp [throw, throwThe, MonadExceptOf.throw] at h
+  · simp [throw, throwThe, MonadExceptOf.throw] at h
 
 /-! ## stretch (NOT proved): end to end
 
